@@ -368,7 +368,12 @@ def rule_z1(rep, src):
             continue
         side = next(iter(tg))
         seen_sides.add(side)
-        form = optional_form(fields[0]["args"][1])
+        ty_arg = fields[0]["args"][1]
+        if ty_arg["k"] == "path" and len(ty_arg["segs"]) == 1:  # `let left_data_type = flag.then_some(optional(..)).unwrap_or(..); Field::new(name, left_data_type, ..)`
+            cl_lets = [x for x in find(m["args"][0], "let") if x["pat"]["k"] == "ident" and x["pat"]["name"] == ty_arg["segs"][0] and x.get("init") is not None]
+            if len(cl_lets) == 1:
+                ty_arg = cl_lets[0]["init"]
+        form = optional_form(ty_arg)
         for v in variants:
             key = "Join::schema@%s:%s" % (v, SIDE[side])
             if form is None:
@@ -753,6 +758,8 @@ def run(rep):
     src = Src(facts.src_facts())
     HELPERS.clear()
     HELPERS.update({f.name: f.node for f in src.fns if f.file == "data_type/function.rs" and not f.self_ty and not f.test and f.body and (f.node.get("vis") or "") == ""})
+    AI.DECL_HELPERS.clear()
+    AI.DECL_HELPERS.update({nm: nd["body"] for nm, nd in HELPERS.items() if not [p for p in nd.get("sig", {}).get("params", nd.get("params", [])) if not p.get("self")]})
     rule_r(rep, src)
     rule_z1(rep, src)
     Z2(rep, src).run()
